@@ -185,6 +185,7 @@ func C08(c *Ctx) {
 	r.Rule("R08.6", "event codec agreement: for every event type that applyTx decodes with a panic on failure, every producer posting that type passes a value of the type the decoder unmarshals into; ledger.AddEvent is called with a raw event only with a type that has no panicking decoder.")
 	r.Rule("R08.7", "explicit panics triaged: every explicit panic in the unrecovered part of block execution (executor package, outside the VM entry points) is one of the frozen, classified sites; a new one is a violation until classified.")
 	r.Rule("R08.8", "revert at most once: in the executor no snapshot id is handed to RevertToSnapshot twice on one path (the ledger panics on an id that was already reverted); a revert closure that may be invoked more than once guards itself with a once-flag.")
+	r.Rule("R08.9", "the one contract that runs unrecovered stays panic-free on sender-chosen strings: in the own bodies of the InterBroker entries (reached from evmInterchain through InvokeBVM, outside the recover of BoltVM.Run) every constant index s[k] into a list obtained from strings.Split / SplitN lies behind a test of len(s) that implies len(s) > k.")
 	r.NotDecided = append(r.NotDecided, "implicit run-time panics (nil / bounds) inside dependencies and in ledger code reached with well-formed arguments; blocking and deadlock; resource exhaustion; termination of WASM / EVM code (fuel / gas are trusted); configuration-dependent failures (unknown proof type); panics classified as storage faults")
 
 	// R08.1
@@ -345,7 +346,7 @@ func C08(c *Ctx) {
 	// R08.3
 	allowedBVM := map[string]bool{"Run": true, "HandleIBTP": true}
 	frozen := map[string]string{
-		"(*BlockExecutor).evmInterchain: InvokeBVM": "reached only for an EVM log whose address is the reserved InterBroker address 0x..19; no CREATE/CREATE2 address can equal it and the genesis deploys no EVM code there, so no transaction content drives this call (same site as the C07 finding)",
+		"(*BlockExecutor).evmInterchain: InvokeBVM": "reached for an EVM log that carries the reserved InterBroker address - produced by the interchain precompile of the built-in EVM from strings the sender chooses. The invoked InterBroker entry runs without the recover of BoltVM.Run until it cross-invokes (the nested Run recovers); R08.9 therefore demands that the own bodies of the InterBroker entries contain no unguarded index into user-chosen lists (same site as the C07 finding)",
 	}
 	n3 := 0
 	for _, fn := range c.P.ModuleFuncs(true) {
@@ -445,6 +446,7 @@ func C08(c *Ctx) {
 		c.transferSignCheck("R08.4", tr)
 	}
 	c.c08NilCallee()
+	c.c08BrokerIndices()
 
 	// R08.5
 	if ap := c.fn("R08.5", "internal/executor.(*SerialExecutor).ApplyTransactions"); ap != nil && len(ap.Params) >= 2 {
@@ -1253,4 +1255,120 @@ func (c *Ctx) c08NilCallee() {
 		}
 	}
 	r.Floor("R08.4", "uses of the optional callee", n, 2)
+}
+
+
+// c08BrokerIndices: R08.9.
+func (c *Ctx) c08BrokerIndices() {
+	r := c.R
+	m := c.Contracts()
+	n := 0
+	for _, ct := range m.bvm.Contracts {
+		if ct.Name != "InterBroker" {
+			continue
+		}
+		for _, e := range ct.Entries {
+			if !e.Own || e.Fn == nil || len(e.Fn.Blocks) == 0 {
+				continue
+			}
+			fn := e.Fn
+			for _, b := range fn.Blocks {
+				for _, in := range b.Instrs {
+					ia, ok := in.(*ssa.IndexAddr)
+					if !ok {
+						continue
+					}
+					k, isConst := core.ConstInt(ia.Index)
+					src, _ := core.CallOf(ia.X)
+					if !isConst || src == nil || !(strings.HasSuffix(core.CalleeName(src), "strings.Split") || strings.HasSuffix(core.CalleeName(src), "strings.SplitN")) {
+						continue
+					}
+					n++
+					// strings.Split (and SplitN with a non-zero count) never returns an empty list
+					if k == 0 {
+						atLeastOne := strings.HasSuffix(core.CalleeName(src), "strings.Split")
+						if !atLeastOne && len(src.Call.Args) == 3 {
+							if cnt, okc := core.ConstInt(src.Call.Args[2]); okc && cnt != 0 {
+								atLeastOne = true
+							}
+						}
+						if atLeastOne {
+							r.OKTrivial("R08.9", fmt.Sprintf("%s: index [%d] into a split list #%d behind its length test", e.Key(), k, n), c.P.Pos(ia.Pos()), "a split list has at least one element")
+							continue
+						}
+					}
+					// edges on which len(s) > k is established
+					long := condEdges(fn, func(f core.Fact, ifi *ssa.If) (bool, int) {
+						bo, ok := ifi.Cond.(*ssa.BinOp)
+						if !ok {
+							return false, 0
+						}
+						isLen := func(v ssa.Value) bool {
+							cc, ok := core.Strip(v).(*ssa.Call)
+							if !ok {
+								return false
+							}
+							bn, ok := cc.Call.Value.(*ssa.Builtin)
+							return ok && bn.Name() == "len" && sameValue(cc.Call.Args[0], ia.X)
+						}
+						op, lenLeft := bo.Op, isLen(bo.X)
+						var cv ssa.Value
+						switch {
+						case lenLeft:
+							cv = bo.Y
+						case isLen(bo.Y):
+							cv = bo.X
+							switch op { // c OP len  ->  len OP' c
+							case token.LSS:
+								op = token.GTR
+							case token.LEQ:
+								op = token.GEQ
+							case token.GTR:
+								op = token.LSS
+							case token.GEQ:
+								op = token.LEQ
+							}
+						default:
+							return false, 0
+						}
+						cst, ok := core.ConstInt(cv)
+						if !ok {
+							return false, 0
+						}
+						switch op {
+						case token.EQL:
+							if cst > k {
+								return true, 0
+							}
+						case token.NEQ:
+							if cst > k {
+								return true, 1
+							}
+						case token.GEQ:
+							if cst > k {
+								return true, 0
+							}
+						case token.GTR:
+							if cst+1 > k {
+								return true, 0
+							}
+						case token.LSS:
+							if cst > k {
+								return true, 1
+							}
+						case token.LEQ:
+							if cst+1 > k {
+								return true, 1
+							}
+						}
+						return false, 0
+					})
+					rs := core.Reach([]core.Point{core.EntryOf(fn)}, nil, core.CutOf(long))
+					r.Check(long.Len() > 0 && !rs.Has(ia), "R08.9", fmt.Sprintf("%s: index [%d] into a split list #%d behind its length test", e.Key(), k, n), c.P.Pos(ia.Pos()), fmt.Sprintf("reachable only where len(list) > %d", k),
+						fmt.Sprintf("element %d of a list split from a sender-chosen string is read without a length test that guarantees it exists: a shorter list makes this entry panic, and evmInterchain invokes it outside any recover - the executor goroutine dies", k))
+				}
+			}
+		}
+	}
+	r.Floor("R08.9", "constant indices into split lists in InterBroker entries", n, 3)
 }
